@@ -88,7 +88,10 @@ func vC10Set(t uint16, owner string, ownerLabels [][]byte, n int) (rrs []RR, rda
 	for i := 0; i < n; i++ {
 		rr, _, g := vBuildRRWith("r"+vItoa(i), t, func(g *vGen) {
 			g.owner = ownerLabels
-			if g0 != nil {
+			// records of NS, MX and TXT sets (all types with C10.freeall=1) draw their own shape, so RDATA lengths differ
+			// within a set; for the other types every record has the shape (field lengths) of the first one
+			free := t == TypeNS || t == TypeMX || t == TypeTXT || vParam("C10.freeall", 0) == 1
+			if g0 != nil && !free {
 				g.replay = append([]int{}, g0.choices...)
 			}
 		})
@@ -315,10 +318,19 @@ func H_C10_prechecks() {
 		s.Hdr.Class = vU16("x16")
 		same = s.Hdr.Class == class
 	case 5:
-		c := vU8("x8")
-		vAssume(c >= 'A' && c <= 'z' && c != '\\')
-		key.Hdr.Name = string([]byte{c, 'x', '.'})
-		same = refLowerByte(c) == 'e'
+		switch vChoice("keyowner", 4) {
+		case 0:
+			c := vU8("x8")
+			vAssume(c >= 'A' && c <= 'z' && c != '\\')
+			key.Hdr.Name = string([]byte{c, 'x', '.'})
+			same = refLowerByte(c) == 'e'
+		case 1: // key owned by a child of the signer
+			key.Hdr.Name, same = "sub.ex.", false
+		case 2: // ... by the parent
+			key.Hdr.Name, same = ".", false
+		default: // ... by a sibling that has the signer as a string suffix
+			key.Hdr.Name, same = "xex.", false
+		}
 	case 6:
 		c := vU8("x8")
 		vAssume(c >= 'A' && c <= 'z' && c != '\\')
